@@ -344,6 +344,144 @@ def documents(run, quick):
         rm.close()
 
 
+# ---------------------------------------------------------------- the whole system
+
+SYS_DEFS = {"d1": {"preset": {"SYMMETRIC_KEY": {"GET": "ALLOW_ALL"}}},
+            "d2": {"preset": {"SYMMETRIC_KEY": {"GET": "ALLOW_OWNER"}}}}
+
+
+def _system_trace(args):
+    """A real KmipServer with live policy monitoring (the monitor runs as its own process and scans once a second); policy
+    files are written into its directory while it serves; the policies IN FORCE are observed from outside, through the access
+    decisions of the running engine: for a key under policy n, (owner may Get, another client may Get) is (yes, yes) under
+    the allow-all definition, (yes, no) under allow-owner, (no, no) when no policy of that name is in force."""
+    import time
+    from .. import sysdrv
+    k, seed, nev, pki = args
+    common.scratch()
+    sysdrv.install_wrap_socket()
+    from kmip.core import enums as kenums
+    root = os.path.join(common.scratch(), "sys18_%d" % k)
+    sysm = sysdrv.System(root, tls_client_auth=True, issue=lambda *a: None)
+    txt = open(sysm.conf).read().replace(os.path.join(os.path.dirname(root), "pki"), pki)
+    open(sysm.conf, "w").write(txt)
+    sysm.pki = pki
+    r = random.Random(seed)
+    files, names = ["a.json", "b.json", "c.json"], ["p", "q", "default"]
+    steps, present, clock = [], {}, int(time.time()) - 100000
+    try:
+        sysm.start()
+        alice = sysm.client(os.path.join(pki, "alice.pem"), os.path.join(pki, "alice.key"))
+        bob = sysm.client(os.path.join(pki, "bob.pem"), os.path.join(pki, "bob.key"))
+        alice.open()
+        bob.open()
+        keys = {}
+        for n in ("p", "q", "default", "public"):
+            keys[n] = alice.create(kenums.CryptographicAlgorithm.AES, 128, operation_policy_name=n)
+
+        def can(cl, uid):
+            try:
+                cl.get(uid)
+                return True
+            except Exception:
+                return False
+
+        def observe():
+            out = {}
+            for n, u in keys.items():
+                a, b = can(alice, u), can(bob, u)
+                if n in ("default", "public"):
+                    # built-ins: 'default' lets the owner Get a symmetric key, 'public' speaks about templates only
+                    out[n] = "builtin" if (a, b) == ((True, False) if n == "default" else (False, False)) else "?%s%s" % (a, b)
+                elif (a, b) == (True, True):
+                    out[n] = "d1"
+                elif (a, b) == (True, False):
+                    out[n] = "d2"
+                elif (a, b) != (False, False):
+                    out[n] = "?%s%s" % (a, b)
+            return out
+
+        def settle():
+            t0 = time.time()
+            time.sleep(1.4)
+            last = observe()
+            while time.time() - t0 < 15:
+                time.sleep(0.7)
+                cur = observe()
+                if cur == last and time.time() - t0 >= 2.8:
+                    return cur
+                last = cur
+            return last
+        base = settle()
+        steps.append({"kind": "scan", "store": base, "raised": False})
+        for i in range(nev):
+            x = r.random()
+            if x < 0.7 or not present:
+                f = r.choice(files)
+                content = {nm: r.choice(["d1", "d2"]) for nm in names if r.random() < (0.6 if nm != "default" else 0.15)}
+                valid = r.random() < 0.85
+                if not valid and f in present:
+                    content = present[f]
+                clock += 2
+                path = os.path.join(sysm.policy_dir, f)
+                tmp = path + ".tmp~"
+                with open(tmp, "w") as fh:
+                    if valid:
+                        json.dump({n: SYS_DEFS[d] for n, d in sorted(content.items())}, fh, sort_keys=True)
+                    else:
+                        fh.write("{ this is not a policy document")
+                os.utime(tmp, (clock, clock))
+                os.replace(tmp, path)
+                present[f] = content
+                steps.append({"kind": "write", "f": f, "content": dict(content), "valid": valid, "mtime": clock})
+            else:
+                f = r.choice(sorted(present))
+                os.unlink(os.path.join(sysm.policy_dir, f))
+                del present[f]
+                steps.append({"kind": "remove", "f": f})
+            steps.append({"kind": "scan", "store": settle(), "raised": False})
+        alice.close()
+        bob.close()
+        alive = sysm.proc is not None and sysm.proc.is_alive()
+    finally:
+        sysm.stop()
+        shutil.rmtree(root, ignore_errors=True)
+    return {"tid": "sys%d" % k, "steps": steps, "alive": alive}
+
+
+def system_traces(run, quick):
+    """Leg D: the monitor as it runs in production - its own process, scanning once a second, publishing into the dictionary
+    the engine reads - observed end to end and validated by the same TraceC18.tla."""
+    import concurrent.futures
+    from .. import sysdrv
+    pki = os.path.join(common.scratch(), "pki18")
+    issue = sysdrv.make_pki(pki)
+    issue("alice", ["alice"], "client")
+    issue("bob", ["bob"], "client")
+    n, nev = (6, 5) if quick else (16, 12)
+    with concurrent.futures.ProcessPoolExecutor(max_workers=min(common.NCPU, 8)) as pool:
+        traces = list(pool.map(_system_trace, [(k, common.SEED * 131 + k, nev, pki) for k in range(n)]))
+    path = os.path.join(common.scratch(), "c18sys.json")
+    json.dump(traces, open(path, "w"))
+    cfg = tlc.write_cfg("TraceC18sys.cfg", "SPECIFICATION Spec\nCONSTANTS\n  DROP_STALE = TRUE\n  Files <- FilesABCD\n"
+                        '  Names = {"p", "q", "r"}\n  Defs = {"d1", "d2", "d3"}\nCHECK_DEADLOCK FALSE\n')
+    res = tlc.run("TraceC18", cfg, env={"TRACE_FILE": path})
+    run.add_tlc(res, "TraceC18 (whole system): %d traces" % len(traces))
+    by = {t["tid"]: t for t in traces}
+    for v in res.tag("V"):
+        t = by[v["tid"]]
+        run.violation("C18_store", {"names": sorted(v["names"]), "level": "system"},
+                      {"events": t["steps"][:v["i"]], "note": "policies in force observed through Get by the owner and by another client"})
+    for d in res.tag("D"):
+        run.note_drift({"what": ["store (system)"], "names": d["names"]})
+    for t in traces:
+        if not t["alive"]:
+            run.violation("C18_scan_raises", {"level": "system"}, {"events": t["steps"], "note": "the server process died"})
+        run.case(("system-trace", t["tid"], len(t["steps"])))
+    run.traces += len(traces)
+    run.extra["system_traces"] = {"servers": len(traces), "file_events_each": nev}
+
+
 def check(run, tier):
     quick = tier == "quick"
     run.rule = ("leg A: TLC, MC_C18: all sequences of file events (write any content over 2 names + reserved 'default' x 2 "
@@ -381,3 +519,4 @@ def check(run, tier):
         replay_edges(run, edges)
     random_traces(run, 40 if quick else 400, 60 if quick else 120, common.SEED)
     documents(run, quick)
+    system_traces(run, quick)
